@@ -3,7 +3,7 @@
 From Coq Require Import ZArith NArith String List Bool.
 From Bignums Require Import BigZ.
 From V Require Import Lib.Num Lib.FermatZ Lib.Hex Prim.Bls12 Model.BlsCodec Spec.ZcashCodec
-  Proofs.BytesZ Proofs.CodecProofs Proofs.CodecE2Proofs Proofs.CodecRefine Proofs.Primes.
+  Proofs.BytesZ Proofs.CodecProofs Proofs.CodecE2Proofs Proofs.CodecE2Complete Proofs.CodecRefine Proofs.Primes.
 Import ListNotations.
 Open Scope Z_scope.
 
@@ -64,6 +64,29 @@ Print Assumptions C05_e2_decoded_point_on_curve.
 Theorem C05_e2_no_point_with_y_zero : forall x, rhs2 x <> (0, 0).
 Proof. exact (rhs2_nonzero bls_p_prime). Qed.
 Print Assumptions C05_e2_no_point_with_y_zero.
+
+(* ... and the other direction for G2: every point of the curve with reduced coordinates (whatever the
+   package produces as a G2 element) encodes to bytes that decode back to exactly that point.  This is
+   completeness of the norm-based square root in F_p^2: every square has a root found, and the root is
+   y or -y because F_p^2 = F_p[u]/(u^2+1) has no zero divisors (-1 is a non-residue, p = 3 mod 4). *)
+Theorem C05_e2_encode_decode_roundtrip :
+  forall x y, inF2 x -> inF2 y -> f2mul ZNum pZ y y = rhs2 x ->
+    decode_e2 (encode_e2 (Aff x y)) = (VALID, Aff x y).
+Proof. exact (e2_encode_decode_roundtrip bls_p_prime). Qed.
+Print Assumptions C05_e2_encode_decode_roundtrip.
+
+Theorem C05_e2_infinity_roundtrip : decode_e2 (encode_e2 Inf) = (VALID, Inf).
+Proof. exact e2_encode_decode_roundtrip_inf. Qed.
+
+Theorem C05_fp2_sqrt_complete :
+  forall y, inF2 y ->
+    exists c, f2sqrt ZNum pZ (f2mul ZNum pZ y y) = Some c /\ (c = y \/ c = f2neg ZNum pZ y).
+Proof. exact (f2sqrt_complete bls_p_prime). Qed.
+Print Assumptions C05_fp2_sqrt_complete.
+
+Example C05_e2_roundtrip_hypotheses_satisfiable :
+  inF2 (g2x ZNum) /\ inF2 (g2y ZNum) /\ f2mul ZNum pZ (g2y ZNum) (g2y ZNum) = rhs2 (g2x ZNum).
+Proof. exact roundtrip_hyps_sat. Qed.
 
 (* DecodePublicKey = length guard + E2_read_bytes + membership test: an accepted key re-encodes to
    the input and passed the G2 test of the model ([r]P = infinity) *)
